@@ -46,8 +46,7 @@ claim("C11", "model_checking",
       "The real PowerManagingActor handlers (_send_updated_target_power, _send_reports, bounds update, PartialFailure resend, expiry) are applied for every event sequence of bounded length with "
       "all powers and bounds symbolic, both by calling the handlers and by feeding the real _run select loop / _bounds_tracker task over real channels (late PartialFailure, expiry by the real timer); after every request z3 proves request = regular target + operating-point target as reported and request inside the latest bounds.", TRUST, "DESIGN.md section 4 C11")
 claim("C12", "translation_validation", TV + ". All 2609 topologies with <=7 components from a grammar (quick; <=8 thorough) x 3 evaluation modes (no fallback, fallback configured with valid primaries, primaries replaced by "
-      "their generated fallback formulas); 8 identities per topology over symbolic device powers and unmetered loads. One open known finding (consumer formula without grid meter and a mixed meter) "
-      "is excluded by a topology predicate.", TRUST, "DESIGN.md section 4 C12")
+      "their generated fallback formulas); 8 identities per topology over symbolic device powers and unmetered loads.", TRUST, "DESIGN.md section 4 C12")
 claim("C13", "translation_validation", TV + ". Per input the kind (finite, None, NaN, +inf, -inf) and the nones_are_zeros flags are symbolic choices, so every combination is explored for every program with <=2 operands "
       "(<=3 thorough); a round without output sample is a violation.", TRUST, "DESIGN.md section 4 C13")
 claim("C14", "model_checking",
